@@ -210,7 +210,7 @@ def _count_names(e):
     return 1 if isinstance(e, str) else 0
 
 
-def gen_tree(rng, depth, d, names, scalar_ok=True):
+def gen_tree(rng, depth, d, names, scalar_ok=True, allow_expm=True):
     """random well-formed expression returning a d x d matrix (or scalar if allowed and chosen)"""
     x = rng.random()
     if depth <= 0 or x < 0.25:
@@ -220,31 +220,36 @@ def gen_tree(rng, depth, d, names, scalar_ok=True):
         if y < 0.6:
             return _rand_matrix(rng, d, "jnp")
         return str(rng.choice(names))
-    cmd = str(rng.choice(["add", "sub", "s_mult", "m_mult", "expm", "div", "add", "m_mult", "s_mult"]))
+    cmds = ["add", "sub", "s_mult", "m_mult", "expm", "div", "add", "m_mult", "s_mult"]
+    if not allow_expm:
+        cmds = [c for c in cmds if c != "expm"]
+    cmd = str(rng.choice(cmds))
     if cmd == "add":
         n = int(rng.integers(2, 5))
-        return ("add", *[gen_tree(rng, depth - 1, d, names) for _ in range(n)])
+        return ("add", *[gen_tree(rng, depth - 1, d, names, allow_expm=allow_expm) for _ in range(n)])
     if cmd == "sub":
-        return ("sub", gen_tree(rng, depth - 1, d, names), gen_tree(rng, depth - 1, d, names))
+        return ("sub", gen_tree(rng, depth - 1, d, names, allow_expm=allow_expm), gen_tree(rng, depth - 1, d, names, allow_expm=allow_expm))
     if cmd == "s_mult":
         n = int(rng.integers(1, 4))
         sc = []
         for _ in range(n):
             z = rng.random()
             sc.append(float(rng.uniform(-2, 2)) if z < 0.4 else complex(rng.uniform(-1, 1), rng.uniform(-1, 1)) if z < 0.8 else int(rng.integers(1, 4)))
-        args = sc + [gen_tree(rng, depth - 1, d, names)]
+        args = sc + [gen_tree(rng, depth - 1, d, names, allow_expm=allow_expm)]
         if rng.random() < 0.4:
             # matrix first: exposes in-place scaling of a caller-owned leaf
             args = [args[-1]] + sc
         return ("s_mult", *args)
     if cmd == "m_mult":
         n = int(rng.integers(2, 5))
-        return ("m_mult", *[gen_tree(rng, depth - 1, d, names) for _ in range(n)])
+        return ("m_mult", *[gen_tree(rng, depth - 1, d, names, allow_expm=allow_expm) for _ in range(n)])
     if cmd == "expm":
-        return ("expm", ("s_mult", 0.3, gen_tree(rng, depth - 1, d, names)))
+        # the argument stays shallow and free of further exponentials: jax's expm returns NaN once the norm of its
+        # argument needs more than 16 squarings, which nested exponentials / long products reach quickly
+        return ("expm", ("s_mult", 0.3, gen_tree(rng, min(depth - 1, 1), d, names, allow_expm=False)))
     if cmd == "div":
         den = float(rng.uniform(0.5, 3)) if rng.random() < 0.5 else np.array(rng.uniform(0.5, 2, size=(d, d)))
-        return ("div", gen_tree(rng, depth - 1, d, names), den)
+        return ("div", gen_tree(rng, depth - 1, d, names, allow_expm=allow_expm), den)
     raise AssertionError
 
 
